@@ -103,6 +103,18 @@ func runCases(in, out string, f func(i int, raw []byte) Result) error {
 	return writeResults(out, res)
 }
 
+func runCasesSerial(in, out string, f func(i int, raw []byte) Result) error {
+	cases, err := readCases(in)
+	if err != nil {
+		return err
+	}
+	res := make([]Result, len(cases))
+	for i := range cases {
+		res[i] = safeRun(i, cases[i], f)
+	}
+	return writeResults(out, res)
+}
+
 func safeRun(i int, raw []byte, f func(i int, raw []byte) Result) (r Result) {
 	defer func() {
 		if p := recover(); p != nil {
